@@ -302,18 +302,22 @@ namespace occa {
         if (!valid) {
           return NULL;
         }
+        // Both operands are pasted into [larger - smaller], so both need
+        // parentheses: [N - (a + b)], not [N - a + b]
         exprNode *initInParen = initValue->wrapInParentheses();
-        
+        exprNode *checkInParen = checkValue->wrapInParentheses();
+
         //If incrementing, assume loop bound is large than initial value
         //If decrementing: assume initial value is larger than loop bound
-        exprNode *smaller = (positiveUpdate) ? initInParen : checkValue;
-        exprNode *larger  = (positiveUpdate) ? checkValue : initInParen;
+        exprNode *smaller = (positiveUpdate) ? initInParen : checkInParen;
+        exprNode *larger  = (positiveUpdate) ? checkInParen : initInParen;
         exprNode *count = (new binaryOpNode(iterator->source,
                            op::sub,
                            *larger,
                            *smaller)
-        );  
+        );
         delete initInParen;
+        delete checkInParen;
 
         if (checkIsInclusive) {
           primitiveNode inc(iterator->source, 1);
